@@ -113,7 +113,7 @@ type c07Gen struct {
 	multiMerge, aliasKey, nonStringKey bool
 }
 
-var c07Keys = []string{"a", "b", "c", "k1", "k2", "x", "y", "name", "1", "true"}
+var c07Keys = []string{"a", "b", "c", "k1", "k2", "x", "y", "name", "1", "true", "16", "1000", "8", "7", "0x10"}
 
 func (g *c07Gen) scalar() string {
 	return core.Pick(g.r, []string{"v", "w", "1", "0x1f", "010", "true", "1.5", "~", "null", "\"q\"", "two words", "2002-08-15", "-3", "1e3", "''"})
@@ -180,7 +180,7 @@ func (g *c07Gen) mapping(depth int, anchor string) string {
 			key = "*" + core.Pick(r, g.scalars) + " "
 			g.aliasKey = true
 		}
-		if key == "1" || key == "true" {
+		if nonStringKeys[key] {
 			g.nonStringKey = true
 		}
 		parts = append(parts, key+": "+g.value(depth))
@@ -196,8 +196,15 @@ func (g *c07Gen) mapping(depth int, anchor string) string {
 }
 
 func (g *c07Gen) mappingNoAnchor() string {
-	return "{" + core.Pick(g.r, c07Keys) + ": " + g.scalar() + "}"
+	key := core.Pick(g.r, c07Keys)
+	if nonStringKeys[key] {
+		g.nonStringKey = true
+	}
+	return "{" + key + ": " + g.scalar() + "}"
 }
+
+// keys that are not strings (yaml.v3's own decoding keeps them typed; the comparison with it is left out)
+var nonStringKeys = map[string]bool{"1": true, "true": true, "16": true, "1000": true, "8": true, "7": true, "0x10": true}
 
 func (g *c07Gen) document() string {
 	r := g.r
@@ -207,7 +214,7 @@ func (g *c07Gen) document() string {
 		switch r.Intn(5) {
 		case 0:
 			a := fmt.Sprintf("s%d", i)
-			lines = append(lines, fmt.Sprintf("d%d: &%s %s", i, a, core.Pick(r, []string{"sv", "k1", "7", "true", "x y"})))
+			lines = append(lines, fmt.Sprintf("d%d: &%s %s", i, a, core.Pick(r, []string{"sv", "k1", "7", "true", "x y", "0x10", "TRUE", "1_000", "010", "1.50", "16", "+7"})))
 			g.scalars = append(g.scalars, a)
 		case 1:
 			a := fmt.Sprintf("q%d", i)
@@ -412,6 +419,46 @@ func runC07(c *ctx) error {
 				mine := ordered.ToMapRecursive(res.v)
 				if !reflect.DeepEqual(normNums(mine), normNums(ref)) {
 					c.res.Fail(core.OracleFailure{What: "key->value content differs from yaml.v3's own merge resolution", Input: desc, Got: fmt.Sprint(mine), Want: fmt.Sprint(ref)})
+				}
+			}
+		}
+		// ---- oracle 1b: an alias in key position gives the key the aliased scalar gives when written in place ----
+		if surgery == "" && g.aliasKey {
+			var inl yaml.Node
+			if yaml.Unmarshal([]byte(src), &inl) == nil {
+				var walk func(n *yaml.Node, seen map[*yaml.Node]bool)
+				walk = func(n *yaml.Node, seen map[*yaml.Node]bool) {
+					if n == nil || seen[n] {
+						return
+					}
+					seen[n] = true
+					if n.Kind == yaml.MappingNode {
+						for j := 0; j+1 < len(n.Content); j += 2 {
+							if k := n.Content[j]; k.Kind == yaml.AliasNode && k.Alias != nil && k.Alias.Kind == yaml.ScalarNode {
+								cp := *k.Alias
+								cp.Anchor = ""
+								n.Content[j] = &cp
+							}
+						}
+					}
+					for _, ch := range n.Content {
+						walk(ch, seen)
+					}
+					walk(n.Alias, seen)
+				}
+				walk(&inl, map[*yaml.Node]bool{})
+				if r2, fin := decodeWithTimeout(&inl, 5*time.Second); fin && r2.pn == "" {
+					c.res.OracleChecks++
+					a, b := classifyDecodeErr(res.err), classifyDecodeErr(r2.err)
+					if res.err == nil {
+						a = vl.Enc(dump.Any(res.v))
+					}
+					if r2.err == nil {
+						b = vl.Enc(dump.Any(r2.v))
+					}
+					if a != b {
+						c.res.Fail(core.OracleFailure{What: "an alias used as a mapping key gives a different result than the aliased scalar written in place", Input: desc, Got: a, Want: b})
+					}
 				}
 			}
 		}
